@@ -24,6 +24,7 @@ Count = z3.Function('Count', IS, RS)      # groups[descriptor]
 CorrOf = z3.Function('CorrOf', IS, IS)    # id of the correlation lib[descriptor]['thermochem']
 HasThermo = z3.Function('HasThermo', IS, BS)   # 'thermochem' in lib[descriptor]
 
+HasCp = z3.Function('HasCpData', z3.IntSort(), z3.BoolSort())      # the correlation has a heat-capacity table
 CorrCls = BuiltinClass('Corr')
 GroupCls = BuiltinClass('DescriptorKey')
 MapCls = BuiltinClass('GroupsMapping')
@@ -46,6 +47,8 @@ def corr_attr(I, o, name):
                     raise I.exc('IncompleteDataError', 'no data')
                 return Val[X](cid, T)
             return Builtin('Corr.get_' + X, f)
+    if name == 'has_ND_Cp':
+        return Builtin('Corr.has_ND_Cp', lambda I, a, k: HasCp(cid))
     if name == 'get_range':
         def g(I, a, k):
             if I.ctx.branch(HasRange(cid)):
